@@ -204,7 +204,7 @@ def ds3(prog, rr):
 
 
 # --------------------------------------------------------------------------------------- SH6
-@rule("SH6", ["C16"], "the rollback visitor reaches every block the installing builders rewrite", engine="XS", floor=3)
+@rule("SH6", ["C16", "C07"], "the rollback visitor reaches every block the installing builders rewrite", engine="XS", floor=3)
 def sh6(prog, rr):
     inst = ["ArrayConstraintBuilder", "DistConstraintBuilder"]
     rb = prog.cls("ConstraintOverrideRollbackVisitor")
